@@ -30,7 +30,8 @@ class Ob:
 
 
 class Ctx:
-    def __init__(self, facts, config, tier, bin_facts=None):
+    def __init__(self, facts, config, tier, bin_facts=None, repo=None):
+        self.repo = repo or extract.REPO
         self.F = facts
         self.config = config
         self.tier = tier
@@ -83,7 +84,7 @@ def run_property(pid, tier, seed=0, only_rule=None, quiet=False, repo=None, writ
                 continue
             if getattr(fn, "only_configs", None) and cfg not in fn.only_configs:
                 continue
-            ctx = Ctx(F, cfg, tier, B)
+            ctx = Ctx(F, cfg, tier, B, repo=repo)
             try:
                 fn(ctx)
             except AnchorLost as e:
